@@ -1,22 +1,22 @@
-\* C06-N4 (bounded response in steady streams): loss bitmap, NACK decision, statistics; every arrival history of a bounded stream
+\* C06: loss bitmap, NACK decision, statistics; every arrival history of a bounded stream
 CONSTANTS
   M = 32
   BitmapW = 8
   GetW = 5
   LateT = 4
   Fixed_F20 = TRUE
-  Fixed_F26 = TRUE
+  Fixed_F26 = FALSE
   NackHorizon = 10
   Caps = {2}
   Ids = {1}
-  Offs <- OffsSteady
+  Offs <- OffsLoss
   KFs = {FALSE}
   MaxPackets = 3
   Unnacked = 2
-  MaxHi = 16
+  MaxHi = 6
   Starts = {29}
 INIT Init
 NEXT Next
-INVARIANTS PropertyHolds CountersConsistent
+INVARIANTS PropertyHolds
 CONSTRAINT Bounded
 VIEW View
